@@ -192,3 +192,20 @@ func varsHaveMultiMember(vars map[string]any) bool {
 	}
 	return false
 }
+
+// deterministicCase reports whether every execution of the case visits the
+// same items in the same order: false when the path expands object members
+// (.*, .**) and some object reachable has several members - including the
+// three-member triples generated by .keyvalue().
+func deterministicCase(ec *ExecCase, doc any, vars map[string]any) bool {
+	if !exposesOrder(ec.Abs) {
+		return true
+	}
+	hasKV := false
+	ec.Abs.Root.Walk(func(n *gen.N) {
+		if n.K == gen.KMethod && n.S == "keyvalue" {
+			hasKV = true
+		}
+	})
+	return !(hasKV || hasMultiMemberObject(doc) || varsHaveMultiMember(vars))
+}
